@@ -46,7 +46,12 @@ pub fn check_error_locations(text: &str, e: digital_test_runner::errors::ParseEr
     let render_ok = matches!(rendered, Ok(Ok(_)));
     match bad {
         Some(b) => Err(format!("{b}; rendering {}", if render_ok { "succeeded" } else { "failed" })),
-        None => Ok(render_ok),
+        None => match rendered {
+            // every location is fine and the diagnostic still cannot be produced: formatting the error (or one of its
+            // causes) panicked
+            Err(p) => Err(format!("every location lies inside the source, yet rendering the error as a diagnostic panicked: {p}")),
+            Ok(r) => Ok(r.is_ok()),
+        },
     }
 }
 
@@ -56,11 +61,15 @@ pub fn parse_oracle(text: &str) -> (&'static str, Option<(String, String)>) {
         Err(p) => ("panic", Some((p.key(), format!("parsing panicked: {p}")))),
         Ok(Ok(_)) => ("outcome:ok", None),
         Ok(Err(e)) => {
-            let class = error_class(&e);
+            // (the texts of the error and of its causes are the crate's `Display` impls: they must not panic either)
+            let class = match guarded(|| error_class(&e)) {
+                Ok(c) => c,
+                Err(p) => return ("panic", Some((p.key(), format!("formatting the parse error and its causes panicked: {p}")))),
+            };
             match check_error_locations(text, e) {
                 Ok(true) => (class, None),
                 Ok(false) => ("render-failure-valid-spans", None),
-                Err(m) => (class, Some(("c09:bad-error-location".into(), m))),
+                Err(m) => (class, Some((if m.starts_with("every location lies inside") { "c09:error-does-not-render" } else { "c09:bad-error-location" }.into(), m))),
             }
         }
     }
